@@ -39,6 +39,13 @@ CLAIMS = {
          "of all couplings at the start of every contact phase (loop-body contract)."),
    design='6 C07', technique='contract-based deductive verification: VC generation over the clang AST with callee contracts and a typed heap model + SMT',
    note=NOTE_COMMON + " Contact models 0 and 2 (other compile-time configurations) are named as unverified; several invariants of other properties are preconditions."),
+ 'C12': dict(
+   text=("Contracts on the real geometric queries of cell: the face-cache routine establishes area/normal from the area vector of the current "
+         "positions; volume and area are proved equal to explicit ghost sums over the used faces through loop contracts (std::accumulate included); "
+         "centroid and bounding box through a contract on an arbitrary loop iteration (plus the box prologue); the covariance matrix given to "
+         "the eigen-solver; the winding correction between two faces sharing an edge. All meshes, positions and slot patterns symbolic."),
+   design='6 C12', technique='contract-based deductive verification: loop contracts with ghost partial-sum functions, cuts and generalisation lemmas, SMT + exact polynomial back end',
+   note=NOTE_COMMON + " Enclosed-volume meaning and rigid-motion invariance of volume/centroid rest on the quoted closed-surface lemma; flood fill and eigen-solver are named unverified."),
  'C20': dict(
    text=("Contracts on the real grid templates as instantiated by the repository: update_dimensions (every point of the declared box, as a free "
          "variable, is indexable and maps to an existing voxel; voxel count without 32-bit wrap; grid emptied), index functions (formula, range, "
